@@ -421,7 +421,7 @@ def run_task(args):
 # driver
 # --------------------------------------------------------------------------
 def _write_replay(pid, fail):
-    d = os.path.join(VERIF, "replays", pid)
+    d = os.path.join(VERIF, "replays" if boot.REPO == "/repo" else os.path.join(".scratch", "replays"), pid)
     os.makedirs(d, exist_ok=True)
     blob = {"property": pid, "sub": fail["sub"], "case": fail["case"],
             "message": fail["msg"], "sig": fail.get("sig", {}),
@@ -602,8 +602,11 @@ def run_property(pid, tier, seed, only=None, procs=None, budget_s=None, scale=1.
     if errors:
         ev["coverage"]["harness_errors"] = errors[:5]
     if only is None:
-        os.makedirs(os.path.join(VERIF, "evidence"), exist_ok=True)
-        with open(os.path.join(VERIF, "evidence", "%s.json" % pid), "w") as f:
+        # evidence describes runs against /repo itself; runs against a scratch
+        # checkout (VERIF_REPO, sensitivity tests) go to an ignored directory
+        evdir = os.path.join(VERIF, "evidence") if boot.REPO == "/repo" else os.path.join(VERIF, ".scratch", "evidence")
+        os.makedirs(evdir, exist_ok=True)
+        with open(os.path.join(evdir, "%s.json" % pid), "w") as f:
             json.dump(ev, f, indent=1, sort_keys=True)
     return {"evidence": ev, "violations": vlines, "errors": errors,
             "known_lines": known_lines, "notes": out}
